@@ -497,6 +497,7 @@ impl World {
         // a heap canary borrowed by the closure: freed right after the call (C14)
         let borrowed = Box::new(CANARY ^ op as u64);
         let bref: &u64 = &borrowed;
+        let prev_note = rt::note(&format!("in:sync {}", name));
         let token = match o {
             Obj::Raw(q, st) => {
                 let rec2 = rec.clone();
@@ -517,6 +518,7 @@ impl World {
             }
         };
         rec.ret(op);
+        rt::note(&prev_note);
         drop(borrowed);
         let r = rec.get(op);
         if token != CANARY ^ op as u64 {
@@ -538,6 +540,7 @@ impl World {
         let borrowed = Box::new(CANARY ^ op as u64);
         let bref: &u64 = &borrowed;
         let waits_before = rt::blocking_waits();
+        let prev_note = rt::note(&format!("in:try_sync {}", name));
         let res = match o {
             Obj::Raw(q, st) => {
                 let rec2 = rec.clone();
@@ -558,6 +561,7 @@ impl World {
             }
         };
         let waits_after = rt::blocking_waits();
+        rt::note(&prev_note);
         rec.set_accepted(op, res.is_ok());
         rec.ret(op);
         drop(borrowed);
@@ -735,12 +739,16 @@ fn check_result(rec: &Rec, op: OpId, name: &str, token: u64, r: Result<u64, futu
 impl FdHandle {
     pub fn wait(mut self) {
         let f = self.fut.take().unwrap();
+        let prev_note = rt::note(&format!("in:await-fd {}", self.name));
         let r = block_on(f);
+        rt::note(&prev_note);
         check_result(&self.rec, self.op, &self.name, self.token, r);
     }
     pub fn sync(mut self) {
         let f = self.fut.take().unwrap();
+        let prev_note = rt::note(&format!("in:fd.sync {}", self.name));
         let r = f.sync();
+        rt::note(&prev_note);
         check_result(&self.rec, self.op, &self.name, self.token, r);
     }
     pub fn detach(mut self) {
@@ -775,7 +783,9 @@ pub struct AfterHandle {
 
 impl AfterHandle {
     pub fn wait(mut self) {
+        let prev_note = rt::note(&format!("in:await-after {}", self.name));
         let r = block_on(self.fut.take().unwrap());
+        rt::note(&prev_note);
         check_result(&self.rec, self.op, &self.name, self.token, r);
     }
     pub fn detach(mut self) {
@@ -793,7 +803,9 @@ pub struct FsHandle<'a> {
 
 impl<'a> FsHandle<'a> {
     pub fn wait(mut self) {
+        let prev_note = rt::note(&format!("in:await-fs {}", self.name));
         let r = block_on(self.fut.take().unwrap());
+        rt::note(&prev_note);
         check_result(&self.rec, self.op, &self.name, self.token, r);
     }
     /// polls `k` times with a counting waker then drops (cancels) the future
